@@ -8,7 +8,7 @@
 (***************************************************************************)
 EXTENDS Helm, HelmProps
 
-AllObjs == {"r1", "r2", "r3", "h1", "h2", "h3", "by1"}
+AllObjs == {"r1", "r2", "r3", "h1", "h2", "h3", "by1", "c1", "c2"}
 Empty == [o \in AllObjs |-> Absent]
 By    == [f1 |-> "x", f2 |-> "-", own |-> "none", pol |-> "none"]
 Obj(own, f1) == [f1 |-> f1, f2 |-> "-", own |-> own, pol |-> "none"]
@@ -22,7 +22,8 @@ PreDeployedA == {[Empty EXCEPT !["by1"] = By, !["r1"] = NewObj(ChartMan("cA")["r
 PreOwn  == {[Empty EXCEPT !["by1"] = By, ![r] = Obj(own, "q")] :
                r \in {"r1", "r3"}, own \in {"none", "othername", "otherns", "partial", "me"}}
            \cup PreBy
-PreHook == {[Empty EXCEPT !["by1"] = By], [Empty EXCEPT !["by1"] = By, !["h1"] = HookObj]}
+PreHook == {[Empty EXCEPT !["by1"] = By], [Empty EXCEPT !["by1"] = By, !["h1"] = HookObj],
+            [Empty EXCEPT !["by1"] = By, !["c1"] = HookObj]}
 
 U(kind, chart) == [NoU EXCEPT !.kind = kind, !.chart = chart]
 B == BOOLEAN
@@ -40,6 +41,9 @@ Uninstalls(keeps, nohs, drys) ==
   {[U("uninstall", "none") EXCEPT !.keep = k, !.nohooks = nh, !.dry = d] : k \in keeps, nh \in nohs, d \in drys}
 
 F == {FALSE}
+CRDInstalls(reps, drys, nss, skips) ==
+  {[U("install", "cR") EXCEPT !.replace = r, !.dry = d, !.createNS = n, !.skipCRDs = k] :
+     r \in reps, d \in drys, n \in nss, k \in skips}
 
 \* ledger family (C01): all four operations, replace / atomic / keep-history / history limits
 MenuLedger == Installs({"cA", "cB"}, B, B, F, F, F) \cup Upgrades({"cA", "cB"}, B, B, {0, 1, 2}, F, F, F)
@@ -51,7 +55,7 @@ MenuCluster == Installs({"cA", "cB", "cC", "cK"}, B, F, F, B, F) \cup Upgrades({
 MenuFault == Installs({"cA", "cH"}, F, B, B, F, F) \cup Upgrades({"cB", "cI", "cC"}, B, B, {0}, B, F, F)
              \cup Rollbacks({0, 1}, {0}, B, B, F) \cup Uninstalls(F, F, F)
 \* dry-run family (C06)
-MenuDry == Installs({"cA", "cH"}, B, B, B, B, B) \cup Upgrades({"cB", "cI"}, B, B, {0, 1}, B, B, B)
+MenuDry == Installs({"cA", "cH"}, B, B, B, B, B) \cup CRDInstalls(B, B, B, B) \cup Upgrades({"cR"}, F, F, {0}, F, F, B) \cup Upgrades({"cB", "cI"}, B, B, {0, 1}, B, B, B)
            \cup Rollbacks({0, 1}, {0, 1}, B, F, B) \cup Uninstalls(B, B, B)
            \cup {[U("install", "cA") EXCEPT !.dry = TRUE, !.clientOnly = TRUE],
                  [U("install", "cH") EXCEPT !.dry = TRUE, !.clientOnly = TRUE, !.replace = TRUE]}
@@ -63,6 +67,9 @@ MenuHooks == Installs({"cH", "cI"}, B, F, B, F, F) \cup Upgrades({"cH", "cI"}, F
 \* concurrency family (C09): plain installs and upgrades racing on one release name
 MenuConc == Installs({"cA", "cB"}, F, F, F, F, F) \cup Upgrades({"cB", "cC"}, F, F, {0}, F, F, F)
 MenuConcX == MenuConc \cup Installs({"cB"}, {TRUE}, F, F, F, F) \cup Upgrades({"cB"}, F, F, {2}, F, F, F)
+\* long histories (C01 pruning over two-digit revision numbers: storage lists records by NAME, v1 v10 v11 v2 ...)
+MenuLong == Installs({"cA"}, F, F, F, F, F) \cup Upgrades({"cA", "cB"}, F, F, {0, 3, 10, 11}, F, F, F)
+            \cup Rollbacks({0, 2}, {0, 10}, F, F, F)
 MenuAll == MenuLedger \cup MenuCluster \cup MenuFault \cup MenuDry \cup MenuOwn \cup MenuHooks
 
 \* smaller menus for the exhaustive configurations (the generators use the large ones)
@@ -72,7 +79,7 @@ XCluster == Installs({"cA", "cC"}, F, F, F, B, F) \cup Upgrades({"cB", "cC", "cK
             \cup Rollbacks({0}, {0}, F, F, F) \cup Uninstalls(F, F, F)
 XFault == Installs({"cA"}, F, B, F, F, F) \cup Upgrades({"cB"}, B, B, {0}, F, F, F)
           \cup Rollbacks({0}, {0}, F, B, F) \cup Uninstalls(F, F, F)
-XDry == Installs({"cH"}, B, F, F, F, B) \cup Upgrades({"cI"}, F, F, {0, 1}, F, F, B)
+XDry == Installs({"cH"}, B, F, F, F, B) \cup CRDInstalls(F, B, B, B) \cup Upgrades({"cI"}, F, F, {0, 1}, F, F, B)
         \cup Rollbacks({0}, {0, 1}, F, F, B) \cup Uninstalls(B, F, B)
         \cup {[U("install", "cH") EXCEPT !.dry = TRUE, !.clientOnly = TRUE]}
 XOwn == Installs({"cA", "cB"}, F, F, F, B, F) \cup Upgrades({"cB"}, F, F, {0}, F, B, F)
